@@ -176,11 +176,12 @@ def stepTags (c : Ctl) (x : Inp) : Ctl × List Tag :=
   let c' := r.1
   (c', .ev x.i.kind :: (r.2.map .act ++ [.snap c'.trun c'.wsClosed (!c'.pendRej && !c'.pendGrace)]))
 
-/-- events a well-behaved environment can produce in this state: the websocket layer neither delivers
-    messages nor reports an error once it is closed (C13), the hub routes user calls only to a
+/-- events a well-behaved environment can produce in this state: the websocket layer reports no error once it is
+    closed (C13) - it may still hand over a message whose read had completed before the close -, the hub routes user calls only to a
     connection that is still registered, the application writes only after it was given the writer -/
 def envEnabled (c : Ctl) : In → Bool
-  | .msgData _ | .msgClose _ | .msgPlain _ | .connErr => !c.wsClosed
+  | .msgData _ | .msgClose _ | .msgPlain _ => true     -- also after the close: the message that was already read (C13)
+  | .connErr => !c.wsClosed
   | .approve | .abort | .close _ => !c.once || c.pendGrace
   | .appWrite _ => c.reader
   | .run => c.st == .initStart && !c.once
